@@ -466,6 +466,7 @@ impl Check for RwaCheck {
         let taddr: soroban_sdk::xdr::ScAddress = (&id).try_into().unwrap();
         let mut ev_bal: BTreeMap<usize, i128> = BTreeMap::new();
         for (i, s) in steps.iter().enumerate() {
+            let mut parked: Option<Violation> = None;
             if let Step::Wait { n } = s {
                 w.advance(*n);
                 st.ledgers += *n as u64;
@@ -573,20 +574,20 @@ impl Check for RwaCheck {
                 return Err(violation(check, kind, i, format!("{s:?}: real {got}, model {exp}; paused={} ct={} cc={} trap={} model={m:?}", m.paused, m.ct, m.cc, m.trap)));
             }
             if !got && !is_collab && w.storage_digest(&[&id, &comp]) != before {
-                return Err(violation("fail.no_trace", kind, i, format!("state changed by refused {s:?}")));
+                self.clause(st, &mut parked, violation("fail.no_trace", kind, i, format!("state changed by refused {s:?}")))?;
             }
             // invariants
             for x in 0..cfg.actors {
                 let (b, f, af) = (c.balance(&a(x)), c.frozen_tokens(&a(x)), c.is_frozen(&a(x)));
                 if *ev_bal.get(&x).unwrap_or(&0) != b && got == exp {
-                    return Err(violation("events.replay_balances", kind, i, format!("actor {x}: events give {}, balance {b} after {s:?}", ev_bal.get(&x).unwrap_or(&0))));
+                    self.clause(st, &mut parked, violation("events.replay_balances", kind, i, format!("actor {x}: events give {}, balance {b} after {s:?}", ev_bal.get(&x).unwrap_or(&0))))?;
                 }
                 if f < 0 || f > b {
-                    return Err(violation("inv.frozen_le_balance", kind, i, format!("actor {x}: frozen {f} balance {b} after {s:?}")));
+                    self.clause(st, &mut parked, violation("inv.frozen_le_balance", kind, i, format!("actor {x}: frozen {f} balance {b} after {s:?}")))?;
                 }
                 if b != m.b(x) || f != m.f(x) || af != m.isf(x) {
                     let check = match kind { "forced_transfer" | "burn" => "supervisory.min_unfreeze", "recover_balance" => "recover.whole_balance_to_target", _ => "state.model_eq" };
-                    return Err(violation(check, kind, i, format!("actor {x}: balance {b}/{} frozen {f}/{} addr-frozen {af}/{} after {s:?}", m.b(x), m.f(x), m.isf(x))));
+                    self.clause(st, &mut parked, violation(check, kind, i, format!("actor {x}: balance {b}/{} frozen {f}/{} addr-frozen {af}/{} after {s:?}", m.b(x), m.f(x), m.isf(x))))?;
                 }
             }
             // allowances (C02): the getter equals what was approved minus what was spent
@@ -594,13 +595,13 @@ impl Check for RwaCheck {
                 for sp in 0..cfg.actors {
                     let al = c.allowance(&a(o), &a(sp));
                     if al != *m.allow.get(&(o, sp)).unwrap_or(&0) {
-                        return Err(violation("allowance.model_eq", kind, i, format!("allowance({o},{sp}) = {al}, model {:?} after {s:?}", m.allow.get(&(o, sp)))));
+                        self.clause(st, &mut parked, violation("allowance.model_eq", kind, i, format!("allowance({o},{sp}) = {al}, model {:?} after {s:?}", m.allow.get(&(o, sp)))))?;
                     }
                 }
             }
             let (tr, cr, de) = (cc.count(&symbol_short!("tr")), cc.count(&symbol_short!("cr")), cc.count(&symbol_short!("de")));
             if (tr, cr, de) != (m.n_tr, m.n_cr, m.n_de) {
-                return Err(violation("notify.exactly_once", kind, i, format!("compliance saw transferred/created/destroyed = {tr}/{cr}/{de}, expected {}/{}/{} after {s:?}", m.n_tr, m.n_cr, m.n_de)));
+                self.clause(st, &mut parked, violation("notify.exactly_once", kind, i, format!("compliance saw transferred/created/destroyed = {tr}/{cr}/{de}, expected {}/{}/{} after {s:?}", m.n_tr, m.n_cr, m.n_de)))?;
             }
             if got {
                 // exact parties and amount of the last notification
@@ -615,11 +616,14 @@ impl Check for RwaCheck {
                     _ => true,
                 };
                 if !ok {
-                    return Err(violation("notify.exactly_once", "args", i, format!("wrong parties/amount notified for {s:?}")));
+                    self.clause(st, &mut parked, violation("notify.exactly_once", "args", i, format!("wrong parties/amount notified for {s:?}")))?;
                 }
             }
             if c.paused() != m.paused {
-                return Err(violation("state.model_eq", "paused", i, "paused flag".into()));
+                self.clause(st, &mut parked, violation("state.model_eq", "paused", i, "paused flag".into()))?;
+            }
+            if let Some(v) = parked.take() {
+                return Err(v);
             }
             st.state(&(m.paused, m.ct, m.cc, m.trap, m.af.values().filter(|x| **x).count(), m.frozen.values().filter(|x| **x > 0).count()));
         }
